@@ -195,3 +195,60 @@ def resource_contention(seed, params):
     sim = make_sim([r, *procs], p.end())
     _start(sim, procs, arr)
     return Scenario(sim, {"res": r}, "sync", True, len(arr))
+
+
+# ----------------------------------------------------------------------
+# degenerate sizes and zero holds
+
+
+@scenario("sync.degenerate_sizes_and_zero_hold", "sync")
+def degenerate_sizes_and_zero_hold(seed, params):
+    """Barrier(parties=1), Semaphore(1) taken for the whole count, RWLock(max_readers=1), Resource(capacity=1),
+    holders that release in the same instant they acquired (zero hold) mixed with positive holds,
+    a Condition notified with nobody waiting, try_acquire paths."""
+    p = P(params, seed)
+    b1 = Barrier("b1", parties=1)
+    bn = Barrier("bn", parties=p.count(0, 2))
+    sem = Semaphore("sem", initial_count=p.count(1, 1))
+    rw = RWLock("rw", max_readers=1)
+    m = Mutex("m")
+    cv = Condition("cv", Mutex("cv.lock"))
+    res = Resource("res", capacity=1)
+    hold = p.hold()
+    arr = p.arrivals(6)
+    n_bn = (len(arr) // bn.parties) * bn.parties
+
+    def body(proc, event):
+        i = event.context["metadata"]["worker"]
+        h = 0.0 if i % 2 == 0 else hold
+        yield from b1.wait()
+        if i < n_bn:
+            yield from bn.wait()
+        yield from sem.acquire(sem.capacity if i % 3 == 0 else 1)
+        yield h
+        sem.release(sem.capacity if i % 3 == 0 else 1)
+        if i % 2:
+            yield from rw.acquire_write()
+            yield h
+            rw.release_write()
+        else:
+            yield from rw.acquire_read()
+            yield h
+            rw.release_read()
+        if m.try_acquire(proc.name):
+            m.release()
+        yield from m.acquire(proc.name)
+        yield h
+        m.release()
+        cv.notify()
+        cv.notify_all()
+        g = yield res.acquire(1)
+        yield h
+        g.release()
+        g.release()
+        proc.done += 1
+
+    procs = [Proc(f"w{i}", body) for i in range(len(arr))]
+    sim = make_sim([b1, bn, sem, rw, m, cv, res, *procs], p.end())
+    _start(sim, procs, arr)
+    return Scenario(sim, {"b1": b1, "bn": bn, "sem": sem, "rw": rw, "m": m, "res": res}, "sync", True, len(arr))
